@@ -375,6 +375,7 @@ def flatten_terms(x):
 
 REF_PRED = {
     "p_eq": lambda x, k: x.p == k,
+    "p_below": lambda x, limit=2: x.p < limit,
     "p_eq_nested": lambda x, k: x.p == k,
     "p_eq_inner": lambda x, k: x.p == k,
     "p_lt": lambda x, y: x.p < y.p,
